@@ -110,6 +110,16 @@ CLAIMS = {
                   "byte for byte with the real csv output on every run).",
              tech="Coq proof: reader/writer state-machine round trip by induction over fields, buffer invariant; differential correspondence",
              ref="DESIGN.md §4 C13"),
+ "C20": dict(text="Coq theorems over all histories of create / remove / flush / external deletion / fork by any number of processes sharing "
+             "the pool: create returns a fresh existing listed path; listed = exists; leaving the context (flush after ANY history, "
+             "i.e. any cut point of the body, also with files created by forked children) leaves no pool file and an empty listing; "
+             "FilePool handles are all open inside and all closed after leaving. The repaired defect is kept as a refuted witness "
+             "(original flush leaks a child's file). Tied to /repo with real forked processes in lock-step over a real multi_proc pool "
+             "(incl. removes paused between file removal and list update) and real files/handles.",
+             note="The OS file system is modelled as a set of paths, NamedTemporaryFile as 'fresh name'; manager-list operations are taken "
+                  "as atomic; a raise in the body is modelled as the history ending there.",
+             tech="Coq proof: invariant over tagged operation histories, refutation witness by vm_compute; lock-step differential correspondence with real fork",
+             ref="DESIGN.md §4 C20"),
 }
 ALL = ["C%02d" % i for i in range(1, 21)]
 def chk(pid, c):
